@@ -52,7 +52,16 @@ namespace BitSerializer::Convert::Detail
 			else
 			{
 				auto value = static_cast<TTarget>(sourceValue);
-				result = (static_cast<TSource>(value) == sourceValue) && !((value > 0 && sourceValue < 0) || (value < 0 && sourceValue > 0));
+				if constexpr (std::is_floating_point_v<TTarget>)
+				{
+					// Rounded value can be casted back only when it is in the range of source type (e.g. INT64_MAX is rounded to 2^63)
+					constexpr auto upperBound = static_cast<TTarget>(std::numeric_limits<TSource>::max() / 2 + 1) * 2;
+					result = value < upperBound && static_cast<TSource>(value) == sourceValue;
+				}
+				else
+				{
+					result = (static_cast<TSource>(value) == sourceValue) && !((value > 0 && sourceValue < 0) || (value < 0 && sourceValue > 0));
+				}
 				if (result) {
 					targetValue = value;
 				}
